@@ -2,6 +2,7 @@ import XvcPipeline.Progress
 import XvcPipeline.Relay
 import XvcPipeline.Demo
 import XvcPipeline.LockOrder
+import XvcPipeline.Gen.FailurePath
 /-!
 # C11 — `xvc pipeline run` always terminates with a verdict for every step
 
@@ -133,6 +134,32 @@ example : WF demoJoin.n demoJoin.deps ∧ Ranked demoJoin.n demoJoin.deps := by
     · subst h2; simp at hd; rcases hd with rfl | rfl <;> simp
     · simp [h2] at hd
 
+/-! ## The failure path of a step thread when messages cannot be delivered
+
+`Next.die` (fix K4b) gives the slot back and publishes `Broken` atomically.  The real `step_state_handler` does these things
+one after the other and also reports the error on the output channel; `error!` is `send(..).unwrap()` and panics — outside
+`catch_unwind` — when the output thread is gone (the reader of xvc's stdout closed the pipe).  Assumption of the termination
+theorems about output otherwise: relaying never blocks (`C11_relay_no_block`); a FAILING emit is covered by this section.
+`Gen.failurePath` is the source order of the three kinds of operation in the handler, regenerated on every run. -/
+
+/-- run the failure path; an `emit` aborts the rest of the path when the output channel is dead.
+    Result: (slot given back, `Broken` published) -/
+def runFailurePath (emitFails : Bool) : List FailOp → Bool × Bool → Bool × Bool
+  | [], acc => acc
+  | .releaseSlot :: rest, (_, p) => runFailurePath emitFails rest (true, p)
+  | .publishBroken :: rest, (r, _) => runFailurePath emitFails rest (r, true)
+  | .emit :: rest, acc => if emitFails then acc else runFailurePath emitFails rest acc
+
+/-- on EVERY path through the handler's failure branch — whether or not its messages can be delivered — the process slot
+    has been given back and a final state has been published before anything can abort it: the model's atomic `die` step
+    is what the code does -/
+theorem C11_handler_final_on_every_path (emitFails : Bool) :
+    runFailurePath emitFails failurePath (false, false) = (true, true) := by
+  cases emitFails <;> decide
+
+/-- non-vacuity: the reordered handler (report first) loses both when the output channel is dead -/
+example : runFailurePath true [.emit, .releaseSlot, .publishBroken] (false, false) = (false, false) := by decide
+
 /-! ## No step thread blocks forever on a lock
 
 The scheduler model treats the sections under `dependency_diffs`, `output_diffs`, `current_states`,
@@ -244,6 +271,7 @@ end Relay
 #print axioms Sched.C11_terminates
 #print axioms Sched.C11_thread_failure_publishes_broken
 #print axioms Sched.C11_F5_unrepaired_counterexample
+#print axioms Sched.C11_handler_final_on_every_path
 #print axioms Sched.C11_lock_order
 #print axioms Sched.C11_lock_order_strict
 #print axioms Sched.C11_lock_order_no_wait_cycle
